@@ -32,7 +32,9 @@ FUNCS = {
     'rg': 'exact', 'com': 'exact', 'gyration': 'exact', 'inertia': 'exact', 'principal_moments': 'exact',
     'rg_masses': 'exact', 'cog': 'exact', 'asphericity': 'exact', 'acylindricity': 'exact', 'shape_anisotropy': 'exact',
     'nematic_order': 'exact', 'directors': 'exact', 'density': 'exact', 'dipole_moments': 'exact',
-    'lprmsd_groups': 'exact', 'lprmsd_ai': 'exact',
+    'lprmsd_groups': 'exact', 'lprmsd_ai': 'exact', 'superpose_self': 'exact', 'lprmsd_solute': 'exact',
+    # (no rmsd(t, t, k) variant: with the reference inside the target the reference frame is centred twice, which legitimately
+    # moves the float32 result -- by 1e-7 in general and by the QCP's 1e-4 square-root noise where the RMSD is zero)
     'angles_pbc': 'exact', 'dihedrals_pbc': 'exact', 'displacements_pbc': 'exact', 'distances_pbc_np': 'exact',
     'contacts_closest_heavy': 'exact', 'contacts_sidechain': 'exact', 'closest_contact': 'exact', 'omega': 'exact',
     'rmsf': 'threads_only',
@@ -108,6 +110,8 @@ def generate(check, rng, tier, run_index):
         # an incomplete residue inside the fragment (missing backbone C or O, as in many deposited structures):
         # the per-residue kernels must skip it without borrowing coordinates from anywhere else
         case['drop_backbone'] = {'res': rng.below(1 << 10), 'atom': rng.choice(['C', 'O', 'N', 'CA'])}
+    if rng.chance(0.3):
+        case['tumble'] = True
     if rng.chance(0.012):
         # a long trajectory of the whole molecule: result arrays of tens of millions of elements, beyond any internal
         # block / buffer size (the small fragments above never leave the first block of anything).  Few functions, and the
@@ -155,6 +159,26 @@ def make_traj(md, case):
         xyz = xyz + r.normal(scale=case['noise'], size=xyz.shape)
     # different overall scale per frame: a value carried over from a neighbour frame is far off
     xyz = xyz * (1.0 + 0.02 * np.arange(case['n_frames']))[:, None, None]
+    if case.get('tumble'):
+        # the molecule tumbles: every frame in another orientation about its centroid, some of them exact half-turns of frame 0's
+        # orientation (quaternion methods are at their least comfortable near 180 degrees)
+        rr = np.random.RandomState(case['seed'] ^ 0x2545F491)
+        for k in range(case['n_frames']):
+            c = xyz[k].mean(0)
+            if k % 3 == 1:
+                ax = k // 3 % 3
+                R = -np.eye(3)
+                R[ax, ax] = 1.0
+            elif k == 0:
+                continue
+            else:
+                q = rr.normal(size=4)
+                q /= np.linalg.norm(q)
+                w_, x_, y_, z_ = q
+                R = np.array([[1 - 2 * (y_ * y_ + z_ * z_), 2 * (x_ * y_ - z_ * w_), 2 * (x_ * z_ + y_ * w_)],
+                              [2 * (x_ * y_ + z_ * w_), 1 - 2 * (x_ * x_ + z_ * z_), 2 * (y_ * z_ - x_ * w_)],
+                              [2 * (x_ * z_ - y_ * w_), 2 * (y_ * z_ + x_ * w_), 1 - 2 * (x_ * x_ + y_ * y_)]])
+            xyz[k] = (xyz[k] - c) @ R.T + c
     dg = case.get('degenerate')
     if dg:
         k = dg['frame'] % case['n_frames']
@@ -248,6 +272,9 @@ def evaluate(md, name, w, idx, fseed):
         # a few interchangeable atoms only (everything else keeps its label)
         g = [np.arange(0, min(3, n))] + ([np.arange(5, min(9, n))] if n > 6 else [])
         out = md.lprmsd(t, ref, 0, permute_groups=g, parallel=True)
+    elif name == 'lprmsd_solute':
+        # a small solute (four labelled atoms) among interchangeable particles: the rotation is fitted on the four alone
+        out = md.lprmsd(t, ref, 0, permute_groups=[np.arange(4, n)], parallel=bool(fseed % 2))
     elif name == 'lprmsd_ai':
         sel = np.arange(0, n, 2)
         out = md.lprmsd(t, ref, 0, atom_indices=sel, permute_groups=[np.arange(min(4, len(sel)))], parallel=bool(fseed % 2))
@@ -256,6 +283,14 @@ def evaluate(md, name, w, idx, fseed):
         out = t.xyz
     elif name == 'superpose':
         t.superpose(ref, 0, parallel=True)
+        out = t.xyz
+    elif name == 'superpose_self':
+        # the reference (always the workload's frame 0) is a frame of the very trajectory being superposed whenever frame 0 is
+        # among the frames of this call, a separate object otherwise: the result for a frame must not care
+        if 0 in list(idx):
+            t.superpose(t, frame=list(idx).index(0), parallel=True)
+        else:
+            t.superpose(ref, 0, parallel=True)
         out = t.xyz
     elif name == 'sasa_atom':
         out = md.shrake_rupley(t, mode='atom', n_sphere_points=120)
@@ -614,6 +649,10 @@ def shrink_world(check, case):
     if case.get('degenerate'):
         c = copy.deepcopy(case)
         del c['degenerate']
+        yield c
+    if case.get('tumble'):
+        c = copy.deepcopy(case)
+        del c['tumble']
         yield c
     if len(case['scheds']) > 1:
         for k in range(len(case['scheds'])):
